@@ -502,21 +502,49 @@ class DslMixin:
             self.binders, self.facts, self.spec_mode = [], None, 1
             self.frames = list(self.frames) + [Frame(mod, fn.name)]
             try:
-                with self.binder(vs, []):
+                with self.binder(vs, []) as bfacts:
                     body = self.eval_pure_body(fn.node.body)
                     if rty == T.BOOL:
                         bterm = self.truthy(body)
                     else:
                         bterm = self.coerce(body, rty, line).term
+                    bfacts = list(bfacts)
             finally:
                 self.st.env, self.binders, self.facts, self.spec_mode, self.frames = saved
             self.w.axioms.append(z3.ForAll(vs, f(*vs) == bterm, patterns=[f(*vs)], qid=key))
-        f, ptys, rty = defined[key]
+            # Side facts produced while evaluating the body (lengths are non-negative, iteration-order axioms of a
+            # dict parameter, ...) are NOT valid for every value of the parameter sorts (the list / dict sorts also
+            # contain ill-formed values, e.g. a negative length): they are re-stated for the actual arguments at each
+            # application instead.  Facts that mention a constant created while evaluating the body (a name given to
+            # an intermediate term) do not transfer and are dropped.
+            ok_ids = {v.get_id() for v in vs}
+
+            def closed_over_params(e):
+                stack, seen = [e], set()
+                while stack:
+                    x = stack.pop()
+                    if x.get_id() in seen:
+                        continue
+                    seen.add(x.get_id())
+                    if z3.is_quantifier(x):
+                        stack.append(x.body())
+                    elif z3.is_app(x):
+                        if x.num_args() == 0 and x.decl().kind() == z3.Z3_OP_UNINTERPRETED \
+                                and x.get_id() not in ok_ids and not x.decl().name().startswith(("str:", "T:")):
+                            return False
+                        stack.extend(x.children())
+                return True
+
+            defined[key] = (f, ptys, rty, vs, [bf for bf in bfacts if closed_over_params(bf)])
+        f, ptys, rty = defined[key][:3]
         av = []
         for a, t in zip(args, ptys):
             if isinstance(a, LazySeq):
                 a = self.materialize(a)
             av.append(self.coerce(a, t, line).term)
+        if len(defined[key]) > 3:
+            for bf in defined[key][4]:
+                self.side_fact(z3.substitute(bf, *list(zip(defined[key][3], av))))
         return SV(f(*av), rty)
 
     def eval_pure_body(self, stmts):
@@ -652,6 +680,11 @@ class DslMixin:
             d = self.evv(node.args[0])
             k = self.coerce(self.evv(node.args[1]), d.ty.args[0]).term
             sorted_ = len(node.args) > 2
+            if d.ty.kind == "set":  # position of a member in the set's (arbitrary but fixed) iteration order
+                _, order, posf = self._keyset_order(d.term, self.w.sort(d.ty.args[0]), "set")
+                if name == "dpos_exact":
+                    self.side_fact(z3.Implies(z3.Select(d.term, k), z3.Select(order, posf(None, k)) == k))
+                return SV(posf(None, k), T.INT)
             _, order, posf = self.dict_order(d, sorted_)
             if name == "dpos_exact":
                 # the instance  order[pos(k)] == k  for this very key (the general axiom is left out of dict_order:
